@@ -173,7 +173,7 @@ def _numden(t, memo):
     (denominator None means 1)."""
     i = t.get_id()
     if i in memo:
-        return memo[i]
+        return memo[i][0]
     out = (t, None)
     if z3.is_app(t) and not (z3.is_rational_value(t) or z3.is_int_value(t)):
         k = t.decl().kind()
@@ -229,7 +229,9 @@ def _numden(t, memo):
             n1, d1 = _numden(ch[0], memo)
             n2, d2 = _numden(ch[1], memo)
             out = (mul(n1, d2) if d2 is not None else n1, mul(d1, n2))
-    memo[i] = out
+    # the term is stored with its result: z3 ast ids are only unique among LIVE terms, and the terms built
+    # here are temporaries - an id-keyed entry whose term died would be hit by an unrelated later term
+    memo[i] = (out, t)
     return out
 
 
@@ -257,7 +259,7 @@ def _som_stage(constraints, negated_claim, budget_ms=2000):
         return False
     # all denominators that were cleared must be non-zero
     dens = {}
-    for n, d in memo.values():
+    for (n, d), _t in memo.values():
         if d is not None:
             dens[d.get_id()] = d
     for d in dens.values():
